@@ -153,8 +153,36 @@ def run_config(ctx, rep, cfg):
         coff, csz = b.fields["counter"]
         eoff, esz = b.fields["ecounter"]
         before = len(rep.obs)
-        check_lanes(ship, rep, cn, sf, b.block, False, esz, lane_mode=True,
-                    field_src=(h, b.ctx_off, coff, csz), field_sink=(h, b.ctx_off, eoff, esz))
+        # the function that holds the (inlined) batch encryptor: the slot itself, or a static refill helper that
+        # receives the context pointer
+        lf_, spec = sf, (h, b.ctx_off)
+        from ..mem import AddrMap
+        from ..lanes import ctx_seg
+        def writes_sink(fn, sp):
+            am = AddrMap(fn)
+            for i in fn.all_insts():
+                if i["op"] == "store":
+                    a = am.of(i["ops"][1])
+                    cs = ctx_seg(a, sp + (eoff, esz)) if a is not None else None
+                    o = None if cs is None else (cs.off if cs.off is not None else (cs.rng[0] if cs.rng else None))
+                    if o is not None and eoff <= o < eoff + esz:
+                        return True
+            return False
+        if not writes_sink(sf, spec):
+            am0 = AddrMap(sf)
+            for i in sf.all_insts():
+                if i["op"] != "call" or i["callee"][0] != "f":
+                    continue
+                g = ship.funcs.get((sf.unit, i["callee"][1]))
+                if g is None or g.decl:
+                    continue
+                for k, o in enumerate(i["ops"]):
+                    a = am0.of(o) if o[0] in ("i", "a") else None
+                    if a is not None and a.root == ("arg", h) and len(a.segs) == 2 and a.segs[0].off == b.ctx_off and a.segs[1].off == 0 \
+                            and writes_sink(g, (k, None)):
+                        lf_, spec = g, (k, None)
+        check_lanes(ship, rep, cn, lf_, b.block, False, esz, lane_mode=True,
+                    field_src=spec + (coff, csz), field_sink=spec + (eoff, esz))
         for o in rep.obs[before:]:
             o["rule"] = "C06.R3"
     # ---- R3 parallel siblings
